@@ -42,7 +42,7 @@ SELFTEST_MUTANT = 'recv-split-off-by-one'
 REQUIRED_PROBES = ['delimiter_straddles_recv', 'size_met_at_recv_edge', 'timeout_with_partial_data',
                    'ewouldblock_with_partial_data', 'message_too_long', 'partial_send', 'send_timeout_with_unsent',
                    'ns_roundtrip_frames', 'timeout', 'send_timeout', 'threads_interleaved_on_one_socket',
-                   'sender_threads_interleaved_on_one_socket']
+                   'sender_threads_interleaved_on_one_socket', 'second_wrapper_in_mid_stream']
 su = None   # boltons.socketutils, set by setup()
 
 DELIMS = [b'|', b'\n', b'\r\n', b'||', b'\r\n\r\n', b'ab', b'aba', b'|a|', b'\r', b'a|', b'%', b'%s|', b'a%\n', b'{}', b'\\']
